@@ -91,13 +91,14 @@ CLAIMED = {
         "touched, the compressor and checksum functions are never consulted), the record kept for the directory carries the "
         "source's method, CRC-32, sizes, timestamp and Unix mode (fix D18), and closing the entry rewrites and recomputes "
         "nothing; the reader's find_content on the copied entry locates exactly those bytes, whatever follows (raw read of "
-        "the copy = raw read of the source, any method code, any size).  Correspondence: every entry of sources from the independent builder (decodable and undecodable methods, "
+        "the copy = raw read of the source, any method code, any size); the same outcome on every sink that splits writes "
+        "arbitrarily without failing (C14_raw_copy_any_chunking, through the chunking simulation of C09).  Correspondence: every entry of sources from the independent builder (decodable and undecodable methods, "
         "empty, data descriptors, DOS/Unix/other made-by, modes incl. setuid/000/symlink/dir, ZIP64 extras, prefix, odd "
         "times), the crate's writer (all methods x levels) and CPython zipfile, copied alone/first/last/between ordinary "
-        "entries, renamed or not, plus random interleavings; archive bytes equal the model's; oracle: payload bytes equal "
+        "entries, renamed or not, plus random interleavings, every third program over a short-writing sink; archive bytes equal the model's; oracle: payload bytes equal "
         "(independent parser and by_index_raw), metadata equal, decodes to the same content, neighbours intact.",
    note="Trusted: Coq kernel, extraction+driver, harness, genzip.py/zipfile producers, strictzip.py. The reader side is C14_copied_bytes_found: find_content on the copied entry points exactly at the copied bytes, whatever is written behind them.",
-   technique="Coq proof (raw copy on an ideal sink: verbatim bytes, source metadata, no recomputation) + byte-exact correspondence over independent sources",
+   technique="Coq proof (raw copy on ideal and short-writing sinks: verbatim bytes, source metadata, no recomputation) + byte-exact correspondence over independent sources",
    design="8 (C14)"),
  "C08": dict(
    text="Machine-checked Coq theorems, for ALL values below 2^64 (so incl. 0xFFFF/0xFFFFFFFF and either side): the clamped "
